@@ -364,10 +364,11 @@ impl SaveDirState {
                 }
             }
         } else {
+            let mut is_thin_archive = false;
             if let Ok(data) = FileData::new(source_path, false) {
                 match FileKind::identify_bytes(&data) {
                     Ok(FileKind::ThinArchive) => {
-                        self.handle_thin_archive(source_path, parsed_args)?;
+                        is_thin_archive = true;
                     }
                     Ok(FileKind::Text) => {
                         let is_in_sysroot =
@@ -407,6 +408,13 @@ impl SaveDirState {
                         dest_path.display()
                     )
                 })?;
+            }
+
+            // Copy the members only once the archive itself is in place, so that an archive that
+            // (directly or indirectly) lists itself as a member is found to be already copied
+            // rather than being visited forever.
+            if is_thin_archive {
+                self.handle_thin_archive(source_path, parsed_args)?;
             }
         }
 
